@@ -1,11 +1,91 @@
-# Claims table, exec'd by gen_manifest.py.  Extend as rules are built.
-TECH = "custom static analysis over go/ssa + go/types (dominance, must-pass-through, who-may-write, sibling agreement)"
+# Claims table, exec'd by gen_manifest.py.
+TECH = "custom static analysis over go/ssa + go/types (x/tools v0.29.0): "
+TRUST = ("Trusted: Go type checker, go/ssa construction, semantics of defer/recover/range/append/copy and of the stdlib calls named in the rules. "
+         "User callbacks and custom flag.Value types are opaque. Decides the structural clauses listed in DESIGN.md section 8 for this property, not a verdict on any concrete input; ")
 
-claim("C20", "P",
-      "Static effect analysis of the whole production closure: no function but a package initialiser writes a package-level variable, "
-      "package variables hold no shared mutable reference, no goroutine/channel/select or escape hatch (unsafe/reflect/cgo) exists, the environment "
-      "is read at one declaration-time site, every map iteration has only per-key effects, sorting is deterministic. These are the premises of the "
-      "independence/determinism argument in DESIGN.md section 8 (C20); the check decides those premises for every function and site, not a sampled schedule.",
-      "Trusted: Go type checker, go/ssa, the semantics of the listed stdlib calls. User callbacks and custom flag.Value types are opaque. "
-      "Interleaving of writes to os.Stderr and a program that calls Setenv concurrently are outside the claim.",
-      TECH + "; whole-program effect rules GLOB-1..6, DECL-7")
+def N(what): return ("Necessary conditions, decided for every instance and every CFG path of the production closure (no sampling, no input bound): " + what +
+                     " Breaking any one of them breaks the property; all of them holding does not establish it (kind N in DESIGN.md section 8).")
+def P(what): return ("Premises of the written argument in DESIGN.md section 8, each discharged for every instance and path on every run: " + what +
+                     " With the trusted base these premises yield the property (kind P); the residue is listed there.")
+
+claim("C01", "N", N("operators are wired as regular-expression operators (shortcut start->end for [..], end->start for ..., alternatives between a common start and end, concatenation moves every transition, groups non-empty); "
+      "shortcut elimination inherits all transitions and terminal-ness and its fixpoint loop has a measure; the backtracker offers every transition, records and tries every match and says no only after exhaustion; "
+      "the argument vector is never written; the accept test is made on the vector the matchers see; every matcher obeys the options-ended flag; foreign option occurrences are skipped over exactly the tokens an own one consumes."),
+      TRUST + "equality of the accepted set with L(spec) is not decided.",
+      TECH + "operator-wiring and must-pass-through rules on parser/fsm (PAR-5/6, FSM-1/2/3/7, MAT-1/3/4/7/11)")
+claim("C02", "N", N("fresh context per transition, handed to the recursive call, merged only on its success and appended in order; values reach user variables only through one filler that runs after the whole match (Clear once, Set each in order, error returned at once); "
+      "every recorded string is a sub-slice of a command-line token or the literal \"true\"; a positional binds args[0] and returns args[1:]; only the first `--` is dropped; the vector is immutable; the in-token scan continues only past foreign flags."),
+      TRUST + "offsets inside folded tokens and the choice among several derivations are not decided.",
+      TECH + "context-isolation, provenance and who-may-call rules (FSM-4/5/6/7, MAT-1/2/7, VAL-7)")
+claim("C03", "N", N("scanner: position grows only by +1 from a value known < len, every byte read is behind such a guard on every path (with jump-threading of the closed-flag), every cycle advances; "
+      "error positions come from the scanner position, a token or len(spec); parser: atom consumes on every normal return, back() only before a panic, all panics are strings converted by the recover wrapper, recursion only after a consumed opener; "
+      "graph walks check-then-mark; the simplify fixpoint loop has a measure; matcher loops add a positive step; no panicking type assertion; every Cmd literal creates its maps; recursion progress per matcher (FSM-8)."),
+      TRUST + "FSM-8 is violated by three constructs (recorded finding D3: env-fallback of opt/options, spec-level `--`); index safety of the option matcher's string arithmetic and stack depth on progressing recursion are not decided.",
+      TECH + "guard-dominance bounds analysis of the scanner, loop-progress and typestate rules (LEX-1/2/5, PAR-2/5/7, FSM-2/8, MAT-6/12, GLOB-6, CMD-12)")
+claim("C04", "N", N("the level split counts tokens up to the first alias of a direct sub-command; the level validates exactly args[:n] with its own automaton, compiled from its own declarations; a child is entered only after doInit and isAlias on that child with exactly the tokens after the alias; "
+      "the hook chain is started once, at the leaf; leftovers take the rejection funnel; the version flag counts only in first position."),
+      TRUST + "each level's own matching is C01/C02.",
+      TECH + "routing typestate with linear vector-view arithmetic (CMD-1/5/6/7/8/10, FLOW-1)")
+claim("C05", "P", P("the step wiring (Before.Error = outer After, After.Success = After.Error = outer After, Action.Success = Action.Error = own After, chaining from the outer Before, descent hands (Before, After) down, two Do-less root steps); "
+      "Step.Run and callDo evaluated symbolically for every combination of {Success set, value nil/ExitCode/other, Exiter set, Do nil, recovered, Error set}; Exit panics with ExitCode; every step carries the exiter; one start; Run has no recover."),
+      TRUST + "behaviour if the exit indirection returns (only possible in the library's own tests) is outside.",
+      TECH + "wiring rules plus exhaustive scenario evaluation of the two flow functions over their CFG (FLOW-1..5, CMD-1/2/8)")
+claim("C06", "N", N("default stored by the constructor and captured before the environment is applied; env list tried in Fields order, empty skipped, first valid wins, multi-valued Clear/Split/TrimSpace/Set; os.Getenv has one caller reachable only from the two registration functions; "
+      "command-line values: Clear once then Set in order, only for containers the command line mentioned; all 30 literals and 28 short forms carry Name/Desc/EnvVar/HideValue/SetByUser/value(); XOpt/XArg value() pairs agree; Clear stores nil."),
+      TRUST + "VAL-4 is violated at values.setMultivalued (recorded finding D4: an invalid list wipes a multi-valued default); values on concrete inputs are not decided.",
+      TECH + "sibling-agreement over the declaration family, ordering and who-may-call rules (DECL-1/2/3/6/7, VAL-2/3/4/6/7, FSM-5/6)")
+claim("C07", "P", P("every error return of the dispatch function is preceded, on every path, by the error text and the usage on stdErr and then by onError(err) on the rejecting command; no Step.Run precedes it; Run/Cli.parse return the result unchanged and install no recover; "
+      "onError evaluated for 3 error classes x 3 policies; exiter/os.Exit used nowhere else; doInit errors panic; sub-commands inherit ErrorHandling; conversion errors abort the fill and are the automaton's error; output goes to stdErr/stdOut only."),
+      TRUST + "that every input that should be rejected reaches a rejection site is C01/C13.",
+      TECH + "must-pass-through funnel rule and scenario evaluation of the policy switch (CMD-1/2/8/9/11/12, FSM-5/6)")
+claim("C08", "N", N("no iteration of the scanner advances without emitting a token (blank cases excepted); emitted kinds = declared kinds = kinds the parser consumes; first-set(atom) = canAtom; `=<..>` only after an option; token position = iteration start, text = input slice from there; "
+      "only declared names compile, looked up in the right index with the command's own index passed on; no option after `--`; exactly one back() before a panic about a consumed token; ParseError positions by construction <= len; groups non-empty; doInit errors panic; the scanner gets Spec itself."),
+      TRUST + "equivalence of scanner+parser with the documented grammar (the 'iff well-formed' direction) is not decided.",
+      TECH + "table-agreement, consume=>emit path rule and typestate rules on lexer/parser (LEX-3/4/5/6, PAR-1..6, CMD-9/10)")
+claim("C09", "N", N("only the first `--` met while options are not ended is dropped, it sets the flag and exactly one token goes; the flag is copied into every fresh context and every matcher obeys it; after it a positional records the token verbatim; "
+      "acceptance at a terminal state is tested on the stripped vector; a spec `--` sets the same flag unconditionally and no option may follow it in the spec; the help scan stops at `--` unconditionally."),
+      TRUST + "the insertion-invariance relation on concrete inputs is not decided.",
+      TECH + "guard and dominance rules on fsm.apply and the matchers (FSM-4/7, MAT-2/3, PAR-4, CMD-4)")
+claim("C10", "N", N("all names of an option reach one container through one index that every matcher receives; one-letter names are the short ones; long and short matchers apply the same guards per form (own option only, non-empty '=' value, separate value not starting with '-', \"true\" for IsBool of the looked-up option); "
+      "a foreign occurrence is classified by the same form conditions as an own one and skipped over as many tokens; an own match reports the tokens it dropped; token surgery never writes the shared vector; env-exclusion depends on recorded values, not on token counts."),
+      TRUST + "weakest claim of the set: equality of outcomes across re-spellings and the residue arithmetic of folded tokens are not decided.",
+      TECH + "sibling-guard agreement and linear token-count arithmetic over the matcher helpers (DECL-4, MAT-1/6/7/8, PAR-3, VAL-5)")
+claim("C11", "N", N("the skipped-over foreign occurrence spans exactly the tokens an own occurrence of that form consumes (including the two-token form), decided by condition-set pairing of foreign and own paths; the scan loops progress; the group matcher retries until nothing matches; every match is explored."),
+      TRUST + "equality of outcomes across swaps on concrete inputs is not decided.",
+      TECH + "linear token-count arithmetic and loop-progress rules (MAT-7/11/12, FSM-3)")
+claim("C12", "N", N("every non-matching exit of the option matcher yields the env flag with the vector unchanged; occurrence matchers never read the env flag; the group matcher excludes an env-backed option only when len(c.Opts[o]) is unchanged across the match; "
+      "the flag is the result of the env application and is cleared once the command line supplied values; EnvVar reaches the container on every declaration path."),
+      TRUST + "FSM-8 is violated by the two env-fallback constructs (recorded finding D3); set inclusion on concrete inputs is not decided.",
+      TECH + "exit-classification and control-dependence rules on the option matchers (MAT-4/5/6, DECL-1/6, FSM-6/8)")
+claim("C13", "P", P("each built-in Set calls the right strconv function on the parameter itself with the right constants, stores a conversion of result 0 only on the err==nil edge and returns the error as is; string types store the parameter unchanged; "
+      "every route to a typed variable is Set (filler, env application); a Set error aborts the fill and goes through the rejection funnel; recorded strings are verbatim token slices; single-valued env values are passed to Set untrimmed."),
+      TRUST + "strconv itself; 64-bit target for int(i).",
+      TECH + "per-type strconv table check with value provenance (VAL-1/2/3, FSM-5/6, MAT-2, CMD-1)")
+claim("C14", "P", P("the help scan runs first on the level's remaining arguments; State.Parse and Step.Run are reachable only when it found nothing; the help branch prints the long help, signals the sentinel, returns nil; the scan returns the index of -h/--help and -1 at the first `--` unconditionally; "
+      "the version test comes first, reads only args[0] under a length guard against the declared option's names, presence is a nil test of the record Version() creates; sentinels: exit 0 or return, never 2, never panic; usage line = full path."),
+      TRUST + "the interaction with an ancestor's own `--` is excluded by the property.",
+      TECH + "dominance rules on the dispatch function and scenario evaluation of the policy switch (CMD-2/3/4/5/11, HELP-1/3)")
+claim("C15", "P", P("the only store through a SetByUser pointer is the filler's, of constant true, with no guard but the nil test, for keys of the merged maps; keys enter those maps only by appending a string derived from the command line; "
+      "only the accepting branch's maps reach the filler; every declaration path stores the user's pointer."),
+      TRUST + "'given => true' rests on C02's residue (an occurrence on the accepting path is recorded under its container).",
+      TECH + "who-may-write and provenance rules (FSM-4/6, MAT-2, DECL-1)")
+claim("C16", "P", P("Spec is written only in doInit and only when empty: \"[OPTIONS] \" iff an option is declared, then each argument name + blank in list order (the list is appended to only by the registration function); "
+      "the scanner, the parser Params and the usage line all read that Spec; there is one compile path."),
+      TRUST + "nothing beyond C01 for the shared compile path.",
+      TECH + "who-may-write and value-shape rules on doInit (CMD-10, DECL-5)")
+claim("C17", "N", N("every declared argument, option and non-hidden command is visited without break; rows carry description, env list and default from the same container; all aliases joined; hidden commands skipped for no other reason; "
+      "long description only under longDesc && len(LongDesc)>0; usage line = parents+name, trimmed Spec, COMMAND marker iff len(commands)>0; helpers evaluated symbolically (first short and first long name, default shown iff not hidden and non-empty, every env variable); default captured before env; long help only on request."),
+      TRUST + "layout and exact text are not decided.",
+      TECH + "row-provenance rules and scenario evaluation of the name helper (HELP-1/2/3, DECL-1/6, CMD-11, VAL-5)")
+claim("C18", "P", P("one function writes each index; the option insert is inside a loop over all names, each dominated by the not-found edge of a lookup of the same key whose found edge panics; the same pointer is listed and indexed; '-' iff length 1 (evaluated for lengths 1,2,3,7); "
+      "the argument insert is dominated by not-found and by a true validator (no lexer error, exactly one token, kind Arg), failing edges panic; all 46 public entry points reach one of the two registration functions."),
+      TRUST + "map semantics.",
+      TECH + "who-may-write, duplicate-check-before-insert dominance and sibling agreement (DECL-1/2/4/5)")
+claim("C19", "N", N("Set/Clear are invoked only by the filler and the env application; Clear exactly once before the values with no guard but the MultiValued assertion; Set for every value in order; a Set error is returned at once and goes through the funnel; "
+      "IsBool is the result of IsBoolFlag(); DefaultValue uses IsDefault()'s result; a flag-like value records \"true\"; Var hands the user's value through unchanged."),
+      TRUST + "VAL-4 applies to custom multi-valued types too (recorded finding D4); the call log on concrete inputs is not decided.",
+      TECH + "who-may-call and protocol-order rules (FSM-5/6, VAL-3/4/5, MAT-8, DECL-1, CMD-1)")
+claim("C20", "P", P("no function but a package initialiser writes a package-level variable; package variables hold no shared mutable reference; singleton matchers are constants; no goroutine/channel/select/unsafe/reflect; imports within a reviewed set; "
+      "the environment is read at one declaration-time site; every map iteration has only per-key effects; sorting is deterministic; Clear drops the backing array (no aliasing of a shared default slice)."),
+      TRUST + "interleaving of writes to os.Stderr and a program that calls Setenv concurrently are outside.",
+      TECH + "whole-program effect rules (GLOB-1..6, DECL-7, VAL-7)")
